@@ -36,7 +36,7 @@ for p in sorted(glob.glob(os.path.join(ROOT, "seeded", "*", "meta.json"))):
         stat["missed at the first run (strengthening requested; see recheck.log when present)"] += 1
     else:
         stat["other"] += 1
-summary = "Summary of %d seeded changes: " % sum(stat.values()) + "; ".join("%d %s" % (v, k) for k, v in stat.most_common()) + ".\n\n"
+summary = "The runs recorded below used `VERIF_REPO=<scratch worktree with the patch>` (tools/seedcheck.sh, tools/recheck.sh), so that /repo itself stayed untouched while other checks were running; the literal procedure — `git -C /repo apply <patch>`, `./check <property> quick`, `git -C /repo checkout -- .` — was exercised as well (C13-seed3 and C08-seed3: VIOLATION with the patch applied in /repo, exit 0 again after the checkout).\n\n" + "Summary of %d seeded changes: " % sum(stat.values()) + "; ".join("%d %s" % (v, k) for k, v in stat.most_common()) + ".\n\n"
 table = summary + "\n".join(["| directory | property | change | needs to manifest | `./check <property> quick` on the changed tree |", "|---|---|---|---|---|"] + rows)
 begin, end = "<!-- SEEDED-BEGIN -->", "<!-- SEEDED-END -->"
 d = open(os.path.join(ROOT, "DESIGN.md")).read()
